@@ -36,6 +36,7 @@ class Driver:
         self.sent = []  # op indices of fully delivered messages, in order
         self.sent_objs = []  # the objects the writer serialised (canonical), same order
         self.handled = []  # jdump of each dict given to LangServer.handle (canonical)
+        self.versions = {}  # uri -> last document version sent
         self.handled_ops = []
         self.op_steps = {}
         self.chunks = sched.get("chunks")
@@ -132,10 +133,33 @@ class Driver:
                 self.chunk_inside_utf8 += 1
         return data
 
+    def _versioned(self, m):
+        """document versions as a conforming client numbers them: whatever didOpen says, then
+        strictly increasing with every didChange until the document is opened again (computed at
+        send time, so that schedules stay conforming when the shrinker drops operations)"""
+        meth = m.get("method")
+        if meth not in ("textDocument/didOpen", "textDocument/didChange"):
+            return m
+        try:
+            td = m["params"]["textDocument"]
+            u, v = td["uri"], td.get("version")
+        except (KeyError, TypeError):
+            return m
+        if not isinstance(u, str) or not isinstance(v, int) or isinstance(v, bool):
+            return m
+        if meth == "textDocument/didOpen":
+            self.versions[u] = v
+            return m
+        if u not in self.versions:
+            return m
+        self.versions[u] += 1
+        m = dict(m, params=dict(m["params"], textDocument=dict(td, version=self.versions[u])))
+        return m
+
     def _build_segment(self):
         while True:
             op = self.ops[self.pos]
-            m = op["m"]
+            m = self._versioned(op["m"])
             data = frames.encode_frame(sim.realise(m), op.get("hdr", "cl-first"), op.get("esc", False))
             if "raw" in op:  # deliberately non-conforming bytes are never generated; reserved
                 raise ValueError("raw ops unsupported")
